@@ -18,21 +18,31 @@ theorem count_all_false : ∀ (m : List Bool), m.all (fun b => !b) = true → m.
     simp only [List.all_cons, Bool.and_eq_true, Bool.not_eq_true'] at h
     rw [h.1]; simp [count_all_false m h.2]
 
-/-- on prefix masks the signature the code gives to a partial application is the one XPath gives -/
-theorem implPartialArgs_eq_partialSig : ∀ (a : Tys) (mask : List Bool), prefixMask mask = true →
-    mask.length = a.length → implPartialArgs a mask = partialSig a mask
+/-- on prefix masks the open parameters are the first ones (what the code did before the `fix:`) -/
+theorem take_eq_pick_of_prefix : ∀ (a : Tys) (mask : List Bool), prefixMask mask = true →
+    mask.length = a.length → a.take (mask.count true) = a.pick mask
   | .nil, [], _, _ => rfl
   | .nil, _ :: _, _, h => by simp [Tys.length] at h
   | .cons _ _, [], _, h => by simp [Tys.length] at h
   | .cons x xs, true :: m, hp, hl => by
-    have ih := implPartialArgs_eq_partialSig xs m (by simpa [prefixMask] using hp) (by simpa [Tys.length] using hl)
-    simp only [implPartialArgs, partialSig] at ih ⊢
+    have ih := take_eq_pick_of_prefix xs m (by simpa [prefixMask] using hp) (by simpa [Tys.length] using hl)
     simp [Tys.pick, Tys.take, List.count_cons, ih]
   | .cons x xs, false :: m, hp, _ => by
     simp only [prefixMask] at hp
-    simp only [implPartialArgs, partialSig, Tys.pick]
+    simp only [Tys.pick]
     rw [Tys.pick_all_false xs m hp]
     simp [List.count_cons, count_all_false m hp, Tys.take]
+
+/-- the number of open parameters is the number of placeholders (`nargs` of the partial function) -/
+theorem Tys.pick_length : ∀ (a : Tys) (mask : List Bool), mask.length = a.length →
+    (a.pick mask).length = mask.count true
+  | .nil, [], _ => rfl
+  | .nil, _ :: _, h => by simp [Tys.length] at h
+  | .cons _ _, [], h => by simp [Tys.length] at h
+  | .cons x xs, true :: m, h => by
+    simp [Tys.pick, Tys.length, List.count_cons, Tys.pick_length xs m (by simpa [Tys.length] using h)]
+  | .cons x xs, false :: m, h => by
+    simp [Tys.pick, List.count_cons, Tys.pick_length xs m (by simpa [Tys.length] using h)]
 
 /-! ### histories -/
 
